@@ -661,6 +661,35 @@ func stressC13(seed int64, d time.Duration) *StressReport {
 		atomic.AddInt64(&counts[5], 1)
 	})
 
+	// 7: HTTP front, gzip request body, proxied bidi whose backend fails at the first message while the
+	// upload is still coming: the forwarder returns, its upload pump is left reading the (pooled)
+	// decompressor; other gzip requests run meanwhile
+	scenarios = append(scenarios, func(rng *rand.Rand, id int) {
+		var objs []byte
+		fail, _ := protojson.Marshal(reqWithData(fx, []byte("FAIL")))
+		objs = append(objs, fail...)
+		for k := 0; k < 3; k++ {
+			j, _ := protojson.Marshal(reqWithData(fx, payload(rng)))
+			objs = append(objs, j...)
+		}
+		z := gzipBytes(objs)
+		cutAt := 10 + rng.Intn(len(z)/2)
+		r := httptest.NewRequest("POST", "/"+fxPkg+".Back/Bidi", nil)
+		r.Body = &pausingBody{parts: [][]byte{z[:cutAt], z[cutAt:]}, wait: time.Duration(10+rng.Intn(30)) * time.Millisecond}
+		r.ContentLength = -1
+		r.Header.Set("Content-Type", "application/json")
+		r.Header.Set("Content-Encoding", "gzip")
+		rec, pn := serveOn(fx.Mux, r)
+		if pn != nil {
+			rep.fail("C13/proxy-http-gzip/panic", "POST Back/Bidi gzip, backend fails first", fmt.Sprint(pn), "no panic", "")
+			return
+		}
+		if rec.Code == 200 && !bytes.Contains(rec.Body.Bytes(), []byte("backend fails first")) {
+			rep.fail("C13/proxy-http-gzip/backend-error-lost", "POST Back/Bidi gzip, backend fails first", fmt.Sprintf("%d %s", rec.Code, truncS(rec.Body.String(), 120)), "the backend's DataLoss status", "")
+		}
+		atomic.AddInt64(&counts[7], 1)
+	})
+
 	stop := make(chan struct{})
 	var wg sync.WaitGroup
 	for g := 0; g < 12; g++ {
@@ -681,7 +710,7 @@ func stressC13(seed int64, d time.Duration) *StressReport {
 	time.Sleep(d)
 	close(stop)
 	wg.Wait()
-	names := []string{"http-unary", "http-client-stream", "httpbody-upload", "grpc-real-server", "raw-frames", "proxy-client-breaks-after-backend-done", "static-asset-reply"}
+	names := []string{"http-unary", "http-client-stream", "httpbody-upload", "grpc-real-server", "raw-frames", "proxy-client-breaks-after-backend-done", "static-asset-reply", "proxy-http-gzip-backend-fails-first"}
 	if !bytes.Equal(c13Asset, c13AssetCopy) {
 		rep.fail("C13/asset/handler-slice-overwritten", "the slice the Asset handler hands out, after the run", fmt.Sprintf("%q", truncS(string(c13Asset), 80)), "unchanged", "the handler's own slice was written by other requests")
 	}
@@ -690,6 +719,27 @@ func stressC13(seed int64, d time.Duration) *StressReport {
 	}
 	return rep
 }
+
+// pausingBody delivers its parts with a pause between them, then a clean end.
+type pausingBody struct {
+	parts [][]byte
+	wait  time.Duration
+	i     int
+}
+
+func (b *pausingBody) Read(p []byte) (int, error) {
+	for b.i < len(b.parts) && len(b.parts[b.i]) == 0 {
+		b.i++
+		time.Sleep(b.wait)
+	}
+	if b.i >= len(b.parts) {
+		return 0, io.EOF
+	}
+	n := copy(p, b.parts[b.i])
+	b.parts[b.i] = b.parts[b.i][n:]
+	return n, nil
+}
+func (b *pausingBody) Close() error { return nil }
 
 // breakingBody delivers one frame, stays silent for a while and then fails like a
 // connection that died inside the stream.
